@@ -715,13 +715,17 @@ class FnCtx:
         self.mark_covered(st)
         for c in invs:
             self.prove_inv(st, fr, ev, c, h, label, 'preserve')
+        bad = False
         for (an, af, meta) in info.get('held', []):
             if (label, an) in self.dropped_auto:
                 continue
             if not self.quick_valid(af(st)):
-                # candidate invariant does not hold: drop it and restart the function
+                # candidate invariant does not hold: drop it (and every other one failing here)
+                # and restart the function
                 self.dropped_auto.add((label, an))
-                raise RestartFunction()
+                bad = True
+        if bad:
+            raise RestartFunction()
         if info.get('dec0') is not None:
             try:
                 d1 = self.inv_int(st, fr, ev, spec.decreases, h)
@@ -859,7 +863,7 @@ def keystr(key):
 
 def verify_function(prog, fnkey, opts=None):
     dropped = set()
-    for attempt in range(8):
+    for attempt in range(12):
         cx = FnCtx(prog, fnkey, opts)
         cx.dropped_auto = dropped
         try:
@@ -868,4 +872,4 @@ def verify_function(prog, fnkey, opts=None):
         except RestartFunction:
             dropped = cx.dropped_auto
             continue
-    raise EngineError('auto-invariant refinement did not converge for ' + fnkey)
+    raise EngineError('auto-invariant refinement did not converge for %s (dropped: %s)' % (fnkey, sorted(map(str, dropped))))
